@@ -521,6 +521,13 @@ func (b *Builder) AllComparisonSeries(existing []*ComparisonSeries, dupeHow int)
 					}
 
 					hp, ok := cs.HashPairs[serString]
+					if ok && hp.DenHash == "" && tr.baselineHashString != "" && hp.NumHash == hashString {
+						// The pair was recorded from an experiment without
+						// baseline measurements; which experiment is visited
+						// first is up to map iteration order, so take the
+						// baseline hash from the one that has it.
+						ok = false
+					}
 					if !ok {
 						cs.HashPairs[serString] = ComparisonHashes{NumHash: hashString, DenHash: tr.baselineHashString}
 					} else {
